@@ -17,6 +17,11 @@ Record ctx (lx : lexer) (pre s0 : str) (start : N) : Prop := mkCtx {
   c_small : byte_len (pre ++ s0) < u32_limit
 }.
 
+(** only line-break tokens, string literals, comments and error tokens (an unterminated literal) may contain a line feed *)
+Definition nl_kind (id : ttype) : Prop :=
+  match id with TNewline | TStringLiteral _ | TComment _ | TError _ => True | _ => False end.
+Definition nlk (t : token) : Prop := no_nl (tspell t) = true \/ nl_kind (tid t).
+
 (** the outcome of a producing step on the text [s0] that follows [pre] *)
 Definition produced_ok (lx : lexer) (pre s0 : str) (r : lex_result) (stg : option token) : Prop :=
   exists gap2 sp2 rest',
@@ -30,7 +35,8 @@ Definition produced_ok (lx : lexer) (pre s0 : str) (r : lex_result) (stg : optio
     end /\
     lr_end r = byte_len pre + byte_len (tspell (lr_token r) ++ gap2 ++ sp2) /\
     pos_at (pre ++ tspell (lr_token r) ++ gap2 ++ sp2) =
-      (cur_line lx + lr_newlines r, dflt (line_start lx) (lr_new_line_start r)).
+      (cur_line lx + lr_newlines r, dflt (line_start lx) (lr_new_line_start r)) /\
+    nlk (lr_token r) /\ no_nl sp2 = true.
 
 Lemma substr_ok prof site a b : substr prof site (byte_len a) (a ++ b) = Ok a.
 Proof. unfold substr. rewrite take_bytes_app. reflexivity. Qed.
@@ -84,6 +90,7 @@ Proof.
   repeat split; auto.
   - cbn. rewrite app_nil_r. lia.
   - cbn [app]. rewrite app_nil_r. rewrite pos_at_app_no_nl by exact Hn. rewrite Hp. f_equal. lia.
+  - left. exact Hn.
 Qed.
 
 Lemma byte_len_single c : byte_len [c] = utf8_len c.
@@ -120,6 +127,7 @@ Proof.
   - unfold tok_wf. cbn [trange tid tspell tstart]. unfold tok_range. rewrite Hp. subst start. do 2 f_equal. lia.
   - cbn. lia.
   - cbn [app]. rewrite pos_at_app, Hp. cbn. f_equal; lia.
+  - right. exact I.
 Qed.
 
 Lemma two_char_token_ok prof lx pre c d after start id :
@@ -143,13 +151,14 @@ Lemma max_opt_none o : max_opt o None = o.
 Proof. destruct o; reflexivity. Qed.
 
 Lemma maybe_suffix_ok prof lx pre sp rest' r :
+  nlk (lr_token r) ->
   tspell (lr_token r) = sp -> sp <> [] -> tok_wf pre (lr_token r) ->
   lr_end r = byte_len pre + byte_len sp ->
   pos_at (pre ++ sp) = (cur_line lx + lr_newlines r, dflt (line_start lx) (lr_new_line_start r)) ->
   byte_len (pre ++ sp ++ rest') < u32_limit ->
   exists r' stg, maybe_suffix prof lx r rest' = Ok (r', stg) /\ produced_ok lx pre (sp ++ rest') r' stg.
 Proof.
-  intros Hsp Hne Hwf He Hpos Hb.
+  intros Hk Hsp Hne Hwf He Hpos Hb.
   pose proof (pos_at_bounds (pre ++ sp)) as B. rewrite Hpos in B. rewrite byte_len_app in B.
   rewrite !byte_len_app in Hb.
   unfold maybe_suffix, scan_apostrophe_suffix.
@@ -202,6 +211,7 @@ Proof.
   repeat split; auto.
   - cbn. rewrite app_nil_r. lia.
   - cbn [app]. rewrite app_nil_r. rewrite pos_at_app_no_nl by exact Hn. rewrite Hp. f_equal. lia.
+  - left. exact Hn.
 Qed.
 
 (** * Numbers *)
@@ -249,6 +259,7 @@ Proof.
   destruct (maybe_suffix_ok prof lx pre text rest'
               (simple_result (mkToken (TNumber v) text start (tok_range pre text (TNumber v))) (start + byte_len text)))
     as (r' & stg & Hm & Hok); cbn [simple_result lr_token lr_end lr_newlines lr_new_line_start tspell dflt]; auto.
+  - left. exact Hn.
   - discriminate.
   - split; auto.
   - lia.
@@ -259,7 +270,7 @@ Qed.
 (** * Strings and comments *)
 
 Lemma delimited_finish prof lx pre text rest' start ty nl' nls' :
-  ctx lx pre (text ++ rest') start -> text <> [] -> ty <> TNewline ->
+  ctx lx pre (text ++ rest') start -> text <> [] -> ty <> TNewline -> nl_kind ty ->
   pos_at (pre ++ text) = (cur_line lx + nl', dflt (line_start lx) nls') ->
   exists start_loc end_loc,
     make_loc_from (cur_line lx) (line_start lx) start = Ok start_loc /\
@@ -269,7 +280,7 @@ Lemma delimited_finish prof lx pre text rest' start ty nl' nls' :
         = Ok (r, stg) /\
       produced_ok lx pre (text ++ rest') r stg.
 Proof.
-  intros C Hne Hty Hpos. pose proof (ctx_bounds _ _ _ _ C) as [B1 B2]. destruct C as [Hs Hp Hb].
+  intros C Hne Hty Hkind Hpos. pose proof (ctx_bounds _ _ _ _ C) as [B1 B2]. destruct C as [Hs Hp Hb].
   rewrite byte_len_app in B2.
   pose proof (pos_at_bounds (pre ++ text)) as B3. rewrite Hpos, byte_len_app in B3.
   pose proof (scan_pos_bounds text (byte_len pre) (cur_line lx) (line_start lx)) as B4.
@@ -282,6 +293,7 @@ Proof.
       - right. split; [lia|]. rewrite B7 by lia. lia.
       - left. lia. }
   apply maybe_suffix_ok; cbn [lr_token lr_end lr_newlines lr_new_line_start tspell]; auto.
+  - right. exact Hkind.
   - split; cbn [tstart trange tspell tid]; auto.
     rewrite tok_range_general by exact Hty. rewrite Hp, Hpos. subst start. reflexivity.
   - lia.
@@ -292,11 +304,11 @@ Proof. pose proof (drop_bytes_app s []) as H. rewrite app_nil_r in H. exact H. Q
 
 Lemma scan_delimited_ok prof lx pre c after start close factory err :
   ctx lx pre (c :: after) start -> utf8_len c = 1 -> utf8_len close = 1 -> c <> 10 ->
-  (forall x, factory x <> TNewline) ->
+  (forall x, factory x <> TNewline) -> (forall x, nl_kind (factory x)) ->
   exists r stg, scan_delimited prof lx (c :: after) start close factory err = Ok (r, stg) /\
                 produced_ok lx pre (c :: after) r stg.
 Proof.
-  intros C Hu Hv Hc Hf. unfold scan_delimited.
+  intros C Hu Hv Hc Hf Hfk. unfold scan_delimited.
   pose proof (ctx_bounds _ _ _ _ C) as [B1 B2].
   rewrite make_loc_ok by (try lia; cbn [byte_len] in B2; lia). cbn [bind].
   pose proof (scan_close_spec close after (start + 1) 0 None) as S.
@@ -338,6 +350,7 @@ Proof.
     destruct (delimited_finish prof lx pre text [] start (TError err) nl' nls' C') as (sl & el & H1 & H2 & r & stg & H3 & H4); auto.
     + discriminate.
     + discriminate.
+    + exact I.
     + rewrite make_loc_ok in H1 by (try lia). inversion H1; subst sl.
       unfold dflt in H2. fold text. rewrite H2. cbn [bind].
       replace (start + byte_len text - start) with (byte_len text) by lia.
@@ -471,10 +484,12 @@ Proof.
       rewrite !byte_len_app. subst start. do 2 f_equal; f_equal; lia.
     + lia.
     + rewrite !app_assoc. rewrite pos_at_app_no_nl by exact Hsn. rewrite <- !app_assoc. rewrite Hpos1. f_equal. lia.
+    + left. exact Hn.
   - intros ->. exists gap, [], rest'. cbn [simple_result lr_token lr_end lr_newlines lr_new_line_start tspell dflt].
     repeat split; auto.
     + lia.
     + rewrite app_nil_r. rewrite Hpos1. f_equal. lia.
+    + left. exact Hn.
 Qed.
 
 Lemma debug_assert_true {E} prof site : @debug_assert E prof site true = Ok tt.
@@ -631,14 +646,14 @@ Proof.
             end).
   { intros Hc k Hk. pose proof (scan_number_ok prof lx pre c after start C Hc) as Hn.
     destruct (scan_number prof lx (c :: after) start) as [[[r stg]|]| | | | |]; try contradiction; cbn [bind fst snd]; auto. }
-  assert (Hdel : forall close factory err, utf8_len c = 1 -> utf8_len close = 1 -> c <> 10 -> (forall x, factory x <> TNewline) ->
+  assert (Hdel : forall close factory err, utf8_len c = 1 -> utf8_len close = 1 -> c <> 10 -> (forall x, factory x <> TNewline) -> (forall x, nl_kind (factory x)) ->
             match (let* x := scan_delimited prof lx (c :: after) start close factory err in Ok (Produced (fst x) (snd x))) with
             | Ok (Produced r stg) => produced_ok lx pre (c :: after) r stg
             | Ok Skip => ignorable c = true
             | _ => False
             end).
-  { intros close factory err Hu Hv Hc Hf.
-    destruct (scan_delimited_ok prof lx pre c after start close factory err C Hu Hv Hc Hf) as (r & stg & Hr & Hok).
+  { intros close factory err Hu Hv Hc Hf Hfk.
+    destruct (scan_delimited_ok prof lx pre c after start close factory err C Hu Hv Hc Hf Hfk) as (r & stg & Hr & Hok).
     rewrite Hr. exact Hok. }
   destruct (c =? 10) eqn:E10.
   { apply N.eqb_eq in E10. subst c. destruct (newline_token_ok prof lx pre after start C) as (r & Hr & Hok). rewrite Hr. exact Hok. }
@@ -651,8 +666,8 @@ Proof.
   destruct (c =? 45) eqn:E45. { apply N.eqb_eq in E45. subst c. apply Hchar; auto; discriminate. }
   destruct (c =? 42) eqn:E42. { apply N.eqb_eq in E42. subst c. apply Hchar; auto; discriminate. }
   destruct (c =? 47) eqn:E47. { apply N.eqb_eq in E47. subst c. apply Hchar; auto; discriminate. }
-  destruct (c =? 34) eqn:E34. { apply N.eqb_eq in E34. subst c. apply Hdel; auto; discriminate. }
-  destruct (c =? 40) eqn:E40. { apply N.eqb_eq in E40. subst c. apply Hdel; auto; discriminate. }
+  destruct (c =? 34) eqn:E34. { apply N.eqb_eq in E34. subst c. apply Hdel; auto; try discriminate; intros; exact I. }
+  destruct (c =? 40) eqn:E40. { apply N.eqb_eq in E40. subst c. apply Hdel; auto; try discriminate; intros; exact I. }
   destruct (c =? 95) eqn:E95. { apply Herr; auto. }
   destruct (c =? 60) eqn:E60.
   { apply N.eqb_eq in E60. subst c. destruct after as [|d after'].
